@@ -95,7 +95,25 @@ static void observe(const frequent_items_sketch<T, W>& s, const Model<T, W>& m, 
 
 template<typename T, typename W>
 static frequent_items_sketch<T, W> roundtrip(const frequent_items_sketch<T, W>& s, Rng& r, const std::string& K) {
-  if (r.coin()) {
+  {  // the two writers produce one format: the stream image equals the bytes image, so either reader reads either
+    std::stringstream sw; s.serialize(sw);
+    const std::string a = sw.str();
+    auto b = s.serialize(0);
+    VF_CHECK(a.size() == b.size() && memcmp(a.data(), b.data(), a.size()) == 0, K + "stream-image-differs-from-bytes-image", "sizes " + std::to_string(a.size()) + " / " + std::to_string(b.size()));
+  }
+  const int how = int(r.below(4));
+  if (how == 2) {   // written to a stream, read from memory
+    std::stringstream sw; s.serialize(sw); const std::string img = sw.str();
+    count("roundtrip_stream_to_bytes");
+    return frequent_items_sketch<T, W>::deserialize(img.data(), img.size());
+  }
+  if (how == 3) {   // written to memory, read from a stream
+    auto bytes = s.serialize(0);
+    std::stringstream sr(std::string(reinterpret_cast<const char*>(bytes.data()), bytes.size()));
+    count("roundtrip_bytes_to_stream");
+    return frequent_items_sketch<T, W>::deserialize(sr);
+  }
+  if (how == 0) {
     unsigned hdr = r.pick({0u, 0u, 3u, 8u});
     auto bytes = s.serialize(hdr);
     VF_CHECK(bytes.size() == hdr + s.get_serialized_size_bytes(), K + "serialized-size", "hdr=" + std::to_string(hdr));
